@@ -98,6 +98,47 @@ TieBase(m, ids) ==
 Wrap(kind, mem, inst, m, ot, mot, labs, tab, np, ids) == WrapP(kind, mem, inst, m, ot, mot, labs, tab, np, Prog(ids, np, FALSE, FALSE))
 
 Labels3 == <<5, 6, 7>>
+
+\* order family ------------------------------------------------------------------------------------
+\* Longer batches that are ORDERINGS of an 8-row pool, to exercise state carried from one row of the loop to
+\* the next. The first coordinate of rows 1..7 runs over -1.5, -0.5, 0.5, 1.5, 2.5, 3.25, 4.0: row 1 lies below
+\* and row 7 above the training range [-1, 3.5) of the one-dimensional / regression data, rows 2..6 in different
+\* interior segments; row 8 is an extreme row. (Non-negative types: the grid shifted by +1.5.)
+OrdGrid == <<-6, -2, 2, 6, 10, 13, 16>>
+OrdPool(nf, inst, nonneg) ==
+  [i \in 1..8 |-> [cc \in 1..nf |->
+     IF i = 8 THEN XCell((inst + 1) % 3, cc, nonneg)
+     ELSE IF cc = 1 THEN OrdGrid[i] + (IF nonneg THEN 6 ELSE 0)
+     ELSE Cell(inst, i, cc, nonneg)]]
+Rev(s) == [q \in 1..Len(s) |-> s[Len(s) + 1 - q]]
+\* ascending in the first coordinate (the extreme row is negative for variant 1 unless the type is non-negative)
+Asc(inst, nonneg) == IF (inst + 1) % 3 = 1 /\ ~nonneg THEN <<8, 1, 2, 3, 4, 5, 6, 7>> ELSE <<1, 2, 3, 4, 5, 6, 7, 8>>
+Orderings(inst, nonneg) ==
+  { [fam |-> "asc",  ids |-> Asc(inst, nonneg)],
+    [fam |-> "desc", ids |-> Rev(Asc(inst, nonneg))],
+    [fam |-> "zig1", ids |-> <<5, 1, 3, 7, 4, 8, 2, 6>>],      \* high, below-min, low, above-max, mid, extreme, ...
+    [fam |-> "zig2", ids |-> <<6, 8, 2, 7, 1, 4, 3, 5>>],
+    [fam |-> "zig4", ids |-> <<5, 1, 3, 4>>],                  \* shortest: high, below-min, low, mid
+    [fam |-> "perm", ids |-> [q \in 1..8 |-> ((3 * q + inst) % 8) + 1]] }
+OrdCalls(views, row1) ==
+  << <<"own", "ref_arr", "c">>, <<"own", "own_ds", "f">>, <<"own", "dirty", "cs">> >> \o
+  (IF views THEN << <<"view", "ref_arr", "rs">>, <<"view", "inplace", "rev">> >> ELSE <<>>) \o
+  (IF row1 THEN << <<"view", "row1", "c">> >> ELSE <<>>)
+OrdProg(ids, views, row1) ==
+  Singles(ids, 8) \o [q \in 1..Len(OrdCalls(views, row1)) |->
+     LET cl == OrdCalls(views, row1)[q] IN [st |-> cl[1], fm |-> cl[2], ly |-> cl[3], ids |-> ids]]
+OrdBase(m, inst, o) ==
+  [kind |-> KindOf(m),
+   inp |-> [model |-> m, inst |-> inst, ft |-> "f64", ot |-> OT(m), mot |-> "fx", nf |-> NF(m), w |-> Width(m, inst),
+            nm |-> IF KindOf(m) = "platt" THEN 1 ELSE 0, mem |-> "self", labels |-> <<>>, tab |-> <<>>, fam |-> o.fam,
+            pool |-> OrdPool(NF(m), inst, NonNeg(m)),
+            prog |-> OrdProg(o.ids, HasViews(m), HasRow1(m))]]
+OrdWrap(kind, mem, inst, m, ot, mot, labs, o) ==
+  [kind |-> kind,
+   inp |-> [model |-> kind, inst |-> inst, ft |-> "f64", ot |-> ot, mot |-> mot, nf |-> 2,
+            w |-> IF kind = "mt" THEN m ELSE 1, nm |-> m, mem |-> mem, labels |-> labs, tab |-> <<>>, fam |-> o.fam,
+            pool |-> OrdPool(2, inst, FALSE),
+            prog |-> OrdProg(o.ids, FALSE, FALSE)]]
 \* mock probability tables: member -> pool id -> quarter units in {0, 2, 4}
 AllTabs(m, np) == [1..m -> [1..np -> {0, 2, 4}]]
 \* reduced set for the quick tier: with 3 members the second row is the first one rotated by one member
@@ -111,6 +152,17 @@ Init ==
        /\ case = Base(m, inst, ft, ids)
   \/ \E m \in Models \cap {"gnb", "mnb"}, ids \in {<<1>>, <<1, 1>>, <<1, 2, 3>>, <<3, 1, 2>>} :
        case = TieBase(m, ids)
+  \/ \E m \in Models, inst \in Insts : \E o \in Orderings(inst, NonNeg(m)) :
+       case = OrdBase(m, inst, o)
+  \/ \E inst \in Insts : \E o \in Orderings(inst, FALSE) :
+       \/ /\ "mt" \in Wrappers
+          /\ \E mem \in {"mock", "real", "tree"} :
+               case = OrdWrap("mt", mem, inst, 2, IF mem = "tree" THEN "lab" ELSE "fx", IF mem = "tree" THEN "lab" ELSE "fx", <<>>, o)
+       \/ /\ "mc" \in Wrappers
+          /\ case = OrdWrap("mc", "real", inst, 3, "lab", "pr", Labels3, o)
+       \/ /\ "platt" \in Wrappers
+          /\ \E mem \in {"mock", "ols", "svr", "enet"} :
+               case = OrdWrap("platt", mem, inst, 1, "pr", "fx", <<>>, o)
   \/ /\ "mt" \in Wrappers
      /\ \E mem \in {"mock", "real", "tree"}, m \in 1..3, inst \in Insts, ids \in Batches(P, MaxLen) :
           case = Wrap("mt", mem, inst, m, IF mem = "tree" THEN "lab" ELSE "fx", IF mem = "tree" THEN "lab" ELSE "fx",
